@@ -51,3 +51,47 @@ func VerifC01TwoMessages() {
 		rt.Assert("O5-second-rejected", w.k.RecvPacket(w.ctx, m2) != nil)
 	}
 }
+
+// VerifC01ReceiptsSurvivePacketOps: the frame condition of the inductive step for the packet keeper's own operations: from
+// an arbitrary store that holds a receipt and an acknowledgement for an arbitrary triple T, one receive / send /
+// acknowledgement-write / acknowledgement-processing with arbitrary arguments (also for T itself) never removes or
+// overwrites them.
+func VerifC01ReceiptsSurvivePacketOps() {
+	w := newWorld(2)
+	src, dst, seq := rt.Str("T.src"), rt.Str("T.dst"), rt.U64("T.seq")
+	_, hadReceipt := w.k.GetPacketReceipt(w.ctx, src, dst, seq)
+	ackBefore, hadAck := w.k.GetPacketAcknowledgement(w.ctx, src, dst, seq)
+	rt.Assume(hadReceipt && hadAck)
+	height := clienttypes.Height{RevisionNumber: rt.U64("rev"), RevisionHeight: rt.U64("height")}
+	var err error
+	switch rt.IntRange("operation", 0, 3) {
+	case 0:
+		err = w.k.RecvPacket(w.ctx, &types.MsgRecvPacket{Packet: rt.Bytes("packetBytes"), ProofCommitment: rt.Bytes("proof"), ProofHeight: height, Signer: rt.Str("signer")})
+	case 1:
+		var p types.Packet
+		rt.Assume(p.ABIDecode(rt.Bytes("sentPacketBytes")) == nil)
+		err = w.k.SendPacket(w.ctx, &p)
+		// invariant I1 (used below): a commitment is only ever stored for a packet whose source is this chain
+		rt.Assert("I1-commitments-only-for-own-sends", err != nil || p.SrcChain == w.ck.chainName)
+	case 2:
+		var p types.Packet
+		rt.Assume(p.ABIDecode(rt.Bytes("receivedPacketBytes")) == nil)
+		err = w.k.WriteAcknowledgement(w.ctx, &p, rt.Bytes("ackBytes"))
+	case 3:
+		// pre-state invariant I1: SendPacket is the only writer of commitments and stores them for own sends only
+		var acked types.Packet
+		pb := rt.Bytes("ackedPacketBytes")
+		if acked.ABIDecode(pb) == nil && w.k.HasPacketCommitment(w.ctx, acked.SrcChain, acked.DstChain, acked.Sequence) {
+			rt.Assume(acked.SrcChain == w.ck.chainName)
+		}
+		err = w.k.AcknowledgePacket(w.ctx, &types.MsgAcknowledgement{Packet: pb, Acknowledgement: rt.Bytes("ackBytes"), ProofAcked: rt.Bytes("proof"), ProofHeight: height, Signer: rt.Str("signer")})
+	}
+	if err != nil {
+		return
+	}
+	rt.Reach("operation-done")
+	_, has := w.k.GetPacketReceipt(w.ctx, src, dst, seq)
+	rt.Assert("O7-receipt-survives-packet-operations", has)
+	ackAfter, hasAck := w.k.GetPacketAcknowledgement(w.ctx, src, dst, seq)
+	rt.Assert("O7-acknowledgement-survives-packet-operations", hasAck && rt.BytesEq(ackAfter, ackBefore))
+}
